@@ -422,6 +422,47 @@ func isRegexpMemo(fa FieldAccess) bool {
 	return f != nil && f.Pkg != nil && f.Pkg.Pkg.Path() == "regexp" && (f.Name() == "Compile" || f.Name() == "MustCompile")
 }
 
+// rootedAtParse: v is (a type assertion / conversion of) the first result of grammar.Parse, possibly handed through
+// an unexported helper of package bexpr all of whose non-nil results are.
+func rootedAtParse(prog *Program, a *Anchors, v ssa.Value, depth int) bool {
+	if depth > 3 {
+		return false
+	}
+	root, _ := rootOf(v)
+	ex, ok := root.(*ssa.Extract)
+	if !ok || ex.Index != 0 {
+		return false
+	}
+	c, ok := ex.Tuple.(*ssa.Call)
+	if !ok {
+		return false
+	}
+	callee := c.Call.StaticCallee()
+	if callee == a.Parse {
+		return true
+	}
+	if callee == nil || !bexprHelper(prog, a, callee) {
+		return false
+	}
+	n := 0
+	for _, b := range callee.Blocks {
+		for _, ins := range b.Instrs {
+			ret, ok := ins.(*ssa.Return)
+			if !ok || len(ret.Results) == 0 {
+				continue
+			}
+			if cst, isC := ret.Results[0].(*ssa.Const); isC && cst.Value == nil {
+				continue
+			}
+			n++
+			if !rootedAtParse(prog, a, ret.Results[0], depth+1) {
+				return false
+			}
+		}
+	}
+	return n > 0
+}
+
 // checkTreeHandedOver: Evaluator.ast is written once, with the parse result,
 // and Evaluate hands exactly that field to the dispatcher.
 func checkTreeHandedOver(r *Run, prog *Program, a *Anchors, pfx string) {
@@ -448,14 +489,8 @@ func checkTreeHandedOver(r *Run, prog *Program, a *Anchors, pfx string) {
 			continue
 		}
 		writes++
-		root, _ := rootOf(fa.Val)
-		ok := false
+		ok := rootedAtParse(prog, a, fa.Val, 0)
 		desc := describeRoot(prog, fa.Val)
-		if ex, isEx := root.(*ssa.Extract); isEx && ex.Index == 0 {
-			if c, isCall := ex.Tuple.(*ssa.Call); isCall && c.Call.StaticCallee() == a.Parse {
-				ok = true
-			}
-		}
 		r.Check(pfx+".tree-handover", fa.Fn.Name()+":store:Evaluator."+astField, prog.pos(fa.Instr.Pos()), ok && fa.Fn == a.CreateEv,
 			"Evaluator."+astField+" must be written only by CreateEvaluator with the (type-asserted) result of grammar.Parse; here: "+desc)
 	}
